@@ -548,6 +548,10 @@ impl Xot {
         for ancestor in self.ancestors(node) {
             if let Some(namespace) = self.namespaces(ancestor).get(prefix) {
                 if *namespace == self.no_namespace() {
+                    // the xml prefix cannot lose its binding
+                    if prefix == self.xml_prefix() {
+                        continue;
+                    }
                     return None;
                 }
                 return Some(*namespace);
@@ -940,8 +944,14 @@ pub(crate) fn namespace_traverse(
                 if seen.contains(&prefix_id) {
                     continue;
                 }
-                let undeclaration =
-                    xot.empty_prefix() == prefix_id && *namespace_id == xot.no_namespace();
+                // a declaration without a namespace takes the binding of
+                // its prefix away (namespace_for_prefix answers None), for
+                // the default namespace and for any other prefix - except
+                // xml, which cannot lose its binding
+                let undeclaration = *namespace_id == xot.no_namespace();
+                if undeclaration && prefix_id == xot.xml_prefix() {
+                    continue;
+                }
                 seen.push(prefix_id);
                 if !undeclaration {
                     yield_!((prefix_id, *namespace_id));
